@@ -137,8 +137,9 @@ Definition opt_eqb (a b : option nat) : bool :=
 (* full check: parent property (cheap, structural) and exactness by comparison with the
    reference immediate dominators *)
 Definition check_idom (g : graph) (e : nat) (t : pmap) : bool :=
+  let L := idom_list g e in
   check_parent g e t &&
-  forallb (fun w => opt_eqb (pget t w) (nth w (idom_list g e) None)) (seq 0 (length g)).
+  forallb (fun w => opt_eqb (pget t w) (nth w L None)) (seq 0 (length g)).
 
 (* ------------------------------------------------------------------ answer tables (for the checks) *)
 Definition sdom_rows (g : graph) (e : nat) : list (list nat) :=
@@ -146,7 +147,9 @@ Definition sdom_rows (g : graph) (e : nat) : list (list nat) :=
       (combine (seq 0 (length g)) (dom_rows g e)).
 
 Definition reach_rows (g : graph) : list (list nat) :=
-  map (fun u => filter (fun v => reach_plus_ref g u v) (seq 0 (length g))) (seq 0 (length g)).
+  let T := map (reach_from g) (seq 0 (length g)) in
+  map (fun u => filter (fun v => existsb (fun s => mem v (nth s T [])) (succs g u)) (seq 0 (length g)))
+      (seq 0 (length g)).
 
 (* immediate post dominators of all nodes from the table of post-dominator rows *)
 Definition ipdom_list (g : graph) (x : nat) : list (option nat) :=
